@@ -183,7 +183,7 @@ let () =
   try
     while true do
       let line = input_line stdin in
-      match split_on ' ' line with
+      try match split_on ' ' line with
       | "L2" :: id :: kind :: hooks :: rest ->
           let rec cut acc = function
             | ";" :: ev -> (List.rev acc, ev)
@@ -198,5 +198,6 @@ let () =
           let ops = List.map (split_on ' ') (String.split_on_char '|' (String.concat " " rest)) in
           run_l1 id kind (List.filter (fun o -> o <> []) ops)
       | _ -> ()
+      with Failure m -> Printf.printf "ERROR %s\nEND\n" m
     done
   with End_of_file -> ()
